@@ -34,7 +34,8 @@ def make_repo(h, time_step=2 * 86400):
         # a matching commit mentions the search text somewhere in its message: first line, or only in a trailer
         # the search text is plain text, not a pattern: "BUG-7" (any character instead of the dot) does not match
         msg = (('BUG.7 fix %d', 'fix %d\n\nRefs: BUG.7\n', 'fix %d (BUG.7)\nsecond line')[c % 3] % c) if h['match'][c - 1] else (
-            ('other %d BUG-7', 'other %d\n\nRefs: BUG-7, BUG.8')[c % 2] % c)
+            # ... and it is case-sensitive: "bug.7" / "Bug.7" do not match
+            ('other %d BUG-7', 'other %d\n\nRefs: BUG-7, BUG.8', 'other %d bug.7\n\nRefs: Bug.7')[c % 3] % c)
         commits[c] = (ps, msg, {})
         if h['tagged'][c - 1]:
             tags['build_%d_release_1_0_success' % (100 + c)] = c
